@@ -166,6 +166,7 @@ struct Fiber {
   uint64_t prio = 0;                  // PCT
   void *ts = nullptr;                 // tsan fiber
   int shim_depth = 0;                 // tsan: nesting of simulator code (accesses ignored)
+  uint64_t stalled_until = 0;         // stall fault: not scheduled before this decision step while anything else can run
 };
 
 struct FdEnt { bool open = false; int ino = -1; int role = R_ANY; bool rd = false, wr = false; size_t off = 0; int stdno = -1; bool fail_next = false; int fail_err = 0; };
@@ -510,7 +511,11 @@ static void schedule_point(int op, int64_t a) {
     if (pol == P_PCT) {
       for (uint64_t p : s.pct_points) if (p == R.steps && me >= 0) s.F[me].prio = s.pct_low--;
     }
-    pick = pick_policy(pol, param, en, n, cur_en ? me : -1);
+    // stall fault: stalled threads are left out while anything else can run
+    int en2[MAXF], n2 = 0;
+    for (int i = 0; i < n; i++) if (s.F[en[i]].stalled_until <= R.steps) en2[n2++] = en[i];
+    if (n2 && n2 < n) pick = pick_policy(pol, param, en2, n2, cur_en && s.F[me].stalled_until <= R.steps ? me : -1);
+    else pick = pick_policy(pol, param, en, n, cur_en ? me : -1);
   }
   rec_choice(idx, (uint32_t)pick, (uint32_t)dflt);
   if (cur_en && pick != me) { R.preemptions++; if (op == OP_PREEMPT) R.inregion_preemptions++; }
@@ -710,6 +715,11 @@ void verif_task(const char *name, int begin) { SHIM;
   if (begin) {
     S->res->reach[std::string("task.") + name]++;
     ev(OP_TASK, (int64_t)hash_bytes(name, strlen(name)), 0);
+    const Sched &sc = S->plan->sched;
+    if (sc.stall_k && !sc.explicit_ && S->cur >= 0 && sc.stall_task == name && S->res->reach[std::string("task.") + name] == sc.stall_k) {
+      S->F[S->cur].stalled_until = S->res->steps + sc.stall_len;
+      S->res->stalls_fired++;
+    }
     if (S->plan->trace && S->res->tasks.size() < 1000000) S->res->tasks.push_back({(uint32_t)S->res->steps, (uint16_t)S->cur, name});
   }
   if (S->plan->monitors) check_monitors();
